@@ -584,8 +584,8 @@ Proof.
   intro H. apply (G [] H).
 Qed.
 
-Lemma collect_scopes_flat S frs rt fc sels g fns l :
-  flatten g S frs rt rt sels = Some fns ->
+Lemma collect_scopes_flat S frs rt fc sels g r fns l :
+  flatten g S frs rt r sels = Some fns ->
   collect_scopes fc S frs rt [(false, sels)] = Some l -> l = map (node_of_fnode false) fns.
 Proof.
   intros Hf Hc. unfold collect_scopes in Hc. cbn [fold_left fst snd] in Hc.
@@ -593,8 +593,8 @@ Proof.
   inversion Hc; subst. simpl. eapply flatten_collect_det; eauto.
 Qed.
 
-Lemma collect_scopes_flat_ex S frs rt fc sels g fns :
-  flatten g S frs rt rt sels = Some fns -> fc >= g ->
+Lemma collect_scopes_flat_ex S frs rt fc sels g r fns :
+  flatten g S frs rt r sels = Some fns -> fc >= g ->
   collect_scopes fc S frs rt [(false, sels)] = Some (map (node_of_fnode false) fns).
 Proof.
   intros Hf Hge. unfold collect_scopes. cbn [fold_left fst snd].
@@ -740,43 +740,117 @@ Definition keys_ok (C : cfg) (keys : list string) : bool :=
   nodupb keys &&
   forallb (fun k => String.eqb (py_field_name C k) k || negb (mem (py_field_name C k) keys)) keys.
 
-Definition field_ok (rec : string -> list sel -> bool) (S : schema) (nested : bool) (tn : string)
-           (f : fnode) : bool :=
+Fixpoint gtype_eqb (a b : gtype) : bool :=
+  match a, b with
+  | TNamed x, TNamed y => String.eqb x y
+  | TList x, TList y | TNonNull x, TNonNull y => gtype_eqb x y
+  | _, _ => false
+  end.
+
+Lemma gtype_eqb_eq : forall a b, gtype_eqb a b = true -> a = b.
+Proof.
+  induction a as [x | a IH | a IH]; intros [y | b | b] H; simpl in H; try discriminate H.
+  - apply String.eqb_eq in H. congruence.
+  - f_equal. apply IH, H.
+  - f_equal. apply IH, H.
+Qed.
+
+Lemma gtype_eqb_refl : forall a, gtype_eqb a a = true.
+Proof. induction a; simpl; auto. apply String.eqb_refl. Qed.
+
+Definition is_object (S : schema) (n : string) : bool :=
+  match lookup_type S n with Some (DObject _ _) => true | _ => false end.
+
+(* ---- abstract positions (interface / union typed composite fields) ---- *)
+
+(* __typename selected directly, without alias or directive (the discriminator of the generated union) *)
+Definition has_typename (sels : list sel) : bool :=
+  existsb (fun s => match s with
+                    | SField None n false _ None => String.eqb n "__typename"
+                    | _ => false end) sels.
+
+(* no fragment spread at the top level or inside inline fragments (so that no variant class gets a
+   mixin base and inline_conds / spreads_on_subtypes see inline fragments only) *)
+Fixpoint no_spread (fuel : nat) (sels : list sel) : bool :=
+  match fuel with
+  | O => false
+  | Datatypes.S g =>
+      forallb (fun s => match s with
+                        | SField _ _ _ _ _ => true
+                        | SSpread _ _ => false
+                        | SInline _ _ sub => no_spread g sub end) sels
+  end.
+
+Definition inline_tcs (sels : list sel) : list (option string) :=
+  flat_map (fun s => match s with SInline tc _ _ => [tc] | _ => [] end) sels.
+
+Definition some_conds (l : list (option string)) : list string :=
+  flat_map (fun o => match o with Some c => [c] | None => [] end) l.
+
+(* the GraphQL types for which the generator emits one class each at an abstract position *)
+Definition abs_names (S : schema) (base : string) (sub : list sel) : list string :=
+  match lookup_type S base with
+  | Some (DUnion ms) => ms
+  | Some (DInterface _ _) =>
+      match inline_tcs sub with
+      | [] => [base]
+      | ics => base :: sorted_set (some_conds ics)
+      end
+  | _ => []
+  end.
+
+(* the type whose class validates an object of runtime type rt *)
+Definition variant (names : list string) (base rt : string) : string :=
+  if mem rt names then rt else base.
+
+Definition abs_ok (rec : string -> string -> list sel -> bool) (g : nat) (cov : bool) (S : schema)
+           (base : string) (sub : list sel) : bool :=
+  cov && has_typename sub && no_spread g sub &&
+  forallb (fun o => match o with Some _ => true | None => false end) (inline_tcs sub) &&
+  negb (mem base (possible_types S base)) &&
+  (match lookup_type S base with Some (DUnion ms) => forallb (is_object S) ms | _ => true end) &&
+  forallb (fun rt => is_object S rt && rec rt (variant (abs_names S base sub) base rt) sub)
+          (possible_types S base).
+
+(* rt: the runtime object type of the response object; r: the type the class is generated for
+   (r = rt except for the base variant of an interface) *)
+Definition field_ok (rec : string -> string -> list sel -> bool) (g : nat) (cov : bool) (S : schema)
+           (nested : bool) (rt r : string) (f : fnode) : bool :=
   (match fn_mixins f with [] => true | _ => false end) &&
   if String.eqb (fn_name f) "__typename" then
     (match fn_sub f with None => true | Some _ => false end) && negb (nested && fn_cond f) &&
-    (match schema_field_type S tn "__typename" with
+    (match schema_field_type S r "__typename" with
      | Ok (TNonNull (TNamed s)) => String.eqb s "String" | _ => false end) &&
     (match lookup_type S "String" with Some DScalar => true | _ => false end)
   else
-    match schema_field_type S tn (fn_name f) with
+    match schema_field_type S r (fn_name f) with
     | Ok t =>
         wf_gtype t &&
+        (match schema_field_type S rt (fn_name f) with Ok t' => gtype_eqb t t' | Err _ => false end) &&
         match lookup_type S (base_name t), fn_sub f with
         | Some DScalar, None | Some (DEnum _), None => true
-        | Some (DObject _ _), Some sub => rec (base_name t) sub
+        | Some (DObject _ _), Some sub => rec (base_name t) (base_name t) sub
+        | Some (DInterface _ _), Some sub | Some (DUnion _), Some sub => abs_ok rec g cov S (base_name t) sub
         | _, _ => false
         end
     | Err _ => false
     end.
 
-(* [cov]: additionally require pairwise distinct Python field names (needed for preservation) *)
+(* [cov]: additionally require pairwise distinct Python field names (needed for preservation, and for
+   abstract positions) *)
 Fixpoint sels_ok (fuel : nat) (cov : bool) (C : cfg) (S : schema) (frs : list fragdef) (nested : bool)
-         (tn : string) (sels : list sel) : bool :=
+         (rt r : string) (sels : list sel) : bool :=
   match fuel with
   | O => false
   | Datatypes.S g =>
-      match flatten g S frs tn tn sels with
+      match flatten g S frs rt r sels with
       | Some fns =>
           keys_ok C (map field_key fns) &&
           (negb cov || nodupb (map (fun f => py_field_name C (field_key f)) fns)) &&
-          forallb (field_ok (sels_ok g cov C S frs true) S nested tn) fns
+          forallb (field_ok (sels_ok g cov C S frs true) g cov S nested rt r) fns
       | None => false
       end
   end.
-
-Definition is_object (S : schema) (n : string) : bool :=
-  match lookup_type S n with Some (DObject _ _) => true | _ => false end.
 
 Definition no_basemodel (cls : list pclass) : bool :=
   forallb (fun c => negb (String.eqb (c_name c) "BaseModel")) cls.
@@ -872,8 +946,9 @@ Proof.
   - rewrite eqb_neq_false; [apply IH; auto|]. intro E. apply H1. rewrite E. apply in_map, Hin.
 Qed.
 
-Definition tv_ok (nested : bool) (tn : string) (tv : option (list string)) : Prop :=
-  tv = None \/ (tv = Some [tn] /\ nested = true).
+(* the typename literal handed to a nested class contains the runtime type *)
+Definition tv_ok (nested : bool) (rt : string) (tv : option (list string)) : Prop :=
+  tv = None \/ (exists tvs, tv = Some tvs /\ nested = true /\ In rt tvs).
 
 Definition table_ok (cs out : list pclass) : Prop :=
   forall c, In c out -> lookup_class cs (c_name c) = Some c /\ c_name c <> "BaseModel".
